@@ -1307,7 +1307,7 @@ NSIM = 240          # seeded draws from SemanticsSim per thorough run
 MAX_TWO = 900       # schemas whose two-place documents are enumerated
 
 
-def run_batch(ctx, nquick=62, go_flags=None, extra_languages=(), formats=FORMATS, select=None, must=(), deep=False, extra=None):
+def run_batch(ctx, nquick=72, go_flags=None, extra_languages=(), formats=FORMATS, select=None, must=(), deep=False, extra=None):
     """Catalogue -> selection -> cases -> generation -> build -> driver binary. Returns a Batch.
 
     select(cat) may return the list of ids to use (later properties pick schemas by tag, e.g. defaults).
@@ -1797,6 +1797,16 @@ POSITION_CLASSES = ("top", "optional", "array", "map", "ref", "union-branch")
 MAX_DISAGREE = 0.03
 
 
+def variant_assumptions(batch):
+    """The harness edits that make the dataquery-variant (format `kind`) packages compile, for the evidence."""
+    if not batch.stats.get("variants_import_added") and not batch.stats.get("variants_package_supplied"):
+        return []
+    return ["format `kind` (composable DataQuery kinds): cog emits `Equals(otherCandidate variants.Dataquery)` but neither imports nor emits "
+            "the `cog/variants` package at this commit; the harness supplied a minimal go/cog/variants/variants.go "
+            "(interface Dataquery { ImplementsDataqueryVariant(); Equals(other Dataquery) bool }) and added the import line to %d generated "
+            "packages (no other edit); the missing package/import is C02's subject" % batch.stats.get("variants_import_added", 0)]
+
+
 def unlisted_failures(ctx):
     """Failures of this run whose signature is not a listed known finding."""
     known = {k["signature"] for k in core.load_known() if k["property"] == ctx.pid and k.get("status", "known") == "known"}
@@ -1979,6 +1989,7 @@ def docs_check(ctx, pid, clauses, assumptions, must=(), go_flags=None):
         "checker_cmd": "tlc SemanticsMC (index, cases); worker sem-gen; go build; driver; python3-vt jsonschema + worker sem-validate; tlc SemanticsTrace",
     }
     a = list(assumptions)
+    a += variant_assumptions(batch)
     if batch.unused_imports_removed:
         a.append("packages whose only compiler diagnostics were `imported and not used` were recompiled after deleting exactly those import lines "
                  "(no other edit); the defect itself belongs to C02")
